@@ -48,7 +48,7 @@ def describe_exc(e):
     return 'harness: %r\n%s' % (e, traceback.format_exc()[-1500:])
 
 
-TIMING = re.compile(r'alive|Timeout|timed out|did not finish|did not return|within \d+ s|gave up|waiting', re.I)
+TIMING = re.compile(r'alive|Timeout|timed out|did not finish|did not return|within \d+ s|gave up|waiting|still open \d+ s', re.I)
 
 
 def timing_verdict(v):
